@@ -236,7 +236,9 @@ func (sp *simProc) simBatch(in, out string, keep, par bool, reps int) (*BatchRes
 		if data, err := os.ReadFile(in); err == nil {
 			json.Unmarshal(data, &hdr)
 		}
-		zones := []string{"Pacific/Kiritimati", "America/Los_Angeles", "Asia/Kathmandu", "UTC", "Pacific/Pago_Pago", "Europe/Berlin"}
+		// (several of them switch to summer time at local midnight, so that some
+		// calendar days have no 00:00 there)
+		zones := []string{"Pacific/Kiritimati", "America/Santiago", "America/Los_Angeles", "America/Sao_Paulo", "Asia/Kathmandu", "America/Havana", "UTC", "Atlantic/Azores", "Pacific/Pago_Pago", "America/Asuncion", "Europe/Berlin"}
 		env = append(env, "TZ="+zones[((hdr.Batch%len(zones))+len(zones))%len(zones)])
 	}
 	if !par && sp.b.Instr != nil && sp.b.Instr.Seams["nproc"] > 0 {
